@@ -237,6 +237,10 @@ def originating_id_table(ctx: Ctx, ev: Evidence) -> list[Finding]:
                     got = int(m.group(1)) if m else -1
                 want = None if has_resp or not ids else ids[-1]
                 ok = (got == want) or (want is not None and got in ids and not has_resp)
+                if got is not None and n_msgs is None:
+                    # an id returned from inside the scan: later messages (a proxy put response among them?) were never examined
+                    ok = False
+                    has_resp = "unknown (scan aborted)"
                 desc = "; ".join(f"msg{i}:" + ",".join(k for k, b in sorted(d.items()) if b) for i, d in sorted(per.items())) or "no reserved message"
                 k2 = f"messages [{desc}] -> id of msg {got}" if got is not None else f"messages [{desc}] -> None"
                 if k2 in seen:
